@@ -5,6 +5,7 @@
    pawns attacking diagonally forward only, knights, an adjacent king.  No assumption on whose turn it is,
    on the other pieces, or on legality of the placement. *)
 From Walleye Require Import Model.Check Model.Fen Spec.Abs Proofs.Cells Proofs.Ray Proofs.CheckProofs Gen.ZobristTable.
+From Walleye Require Import Model.TextMove Spec.Chess Proofs.GenerateAbs Proofs.LegalMoves Proofs.MakeMoveSame Proofs.PositionGo.
 Open Scope Z_scope.
 
 Theorem C06_is_check_correct : forall s c,
@@ -60,6 +61,33 @@ Theorem C06_directions_are_unit :
   Forall unit_dir ROOK_DIRS_CHK /\ Forall unit_dir BISHOP_DIRS_CHK /\ Forall unit_dir ROOK_DIRS_GEN /\ Forall unit_dir BISHOP_DIRS_GEN.
 Proof. exact dirs_are_unit. Qed.
 
+(* ... and so on the boards the text-move applier builds (its king caches are what every check test reads): after
+   `position fen F moves ...` / `position startpos moves ...` with legal moves, is_check on the board the command leaves
+   behind is the rules' "in check" of the position the command describes, for both colours *)
+Theorem C06_after_a_position_fen_command : forall zt cmds c7 b0 mvs,
+  nth_error cmds 1 = Some str_fen -> nth_error cmds 7 = Some c7 ->
+  from_fen zt (flat_map (fun c => c ++ [32%N]) (firstn 5 (skipn 2 cmds)) ++ c7) = Ok b0 ->
+  legal_position (abs b0) = true -> moves_part cmds mvs -> legal_chain (abs b0) mvs ->
+  exists b t, play_out_position zt cmds = Ok (b, t) /\
+    forall c, is_check b c = in_check (pos_pl (fold_left apply mvs (abs b0))) c.
+Proof.
+  intros zt cmds c7 b0 mvs N1 N7 F LP MP LC.
+  destruct (position_fen_command zt cmds c7 b0 mvs N1 N7 F LP MP LC) as (b & t & PL & A & PO & _).
+  exists b, t. split; [exact PL|]. intros c. rewrite <- A. destruct PO as [(CO & KO & _) _]. exact (is_check_correct b c CO KO).
+Qed.
+Theorem C06_after_a_position_startpos_command : forall zt cmds c1 mvs,
+  nth_error cmds 1 = Some c1 -> str_eqb c1 str_fen = false ->
+  moves_part cmds mvs -> legal_chain start_position mvs ->
+  exists b t, play_out_position zt cmds = Ok (b, t) /\
+    forall c, is_check b c = in_check (pos_pl (fold_left apply mvs start_position)) c.
+Proof.
+  intros zt cmds c1 mvs N1 NF MP LC.
+  destruct (position_startpos_command zt cmds c1 mvs N1 NF MP LC) as (b & t & PL & A & PO & _).
+  exists b, t. split; [exact PL|]. intros c. rewrite <- A. destruct PO as [(CO & KO & _) _]. exact (is_check_correct b c CO KO).
+Qed.
+
+Print Assumptions C06_after_a_position_fen_command.
+Print Assumptions C06_after_a_position_startpos_command.
 Print Assumptions C06_is_check_correct.
 Print Assumptions C06_probe_correct.
 Print Assumptions C06_walk_finds_first_piece.
